@@ -19,6 +19,7 @@ def run(check: Check) -> None:
     check.out_of_scope += ["operation sequences longer than 2 on formulas", "layers with non-int keys", "shapes outside the 9-shape menu"]
     pct = 1500 if thorough else 100
     fns = {f: [None] for f in ("lm_lookup", "lm_len_iter", "lm_write", "lm_write_len", "lm_delete", "lm_with_layers", "lm_with_layers_multi", "lm_named_lookup_consistent", "lm_layer_names", "st_map", "st_simplify", "st_update_merge")}
+    fns["st_simplify_deep"] = list(range(8))
     fns["sf_ops"] = ch_c19.sf_shards(-4, 3, 7) if thorough else ch_c19.sf_shards(-3, 2, 3)
     fns["sf_more"] = [{"SHARD": k, "ORD": o, "R": (5 if thorough else 2), "NP": (7 if thorough else 3)} for k in range(6) for o in range(3)]
     for f in fns:
@@ -41,6 +42,7 @@ def run(check: Check) -> None:
             + [ch_c19.lm_with_layers_multi({1: 2, 5: 5}, {1: 3, 4: 5}, {1: 9, 4: 6, 7: 7}, k, p, ip) for k in (1, 4, 5, 7, 0) for p in (True, False) for ip in (True, False)]
             + [f(i, 1, 2, 3, 4) for f in (ch_c19.st_map, ch_c19.st_simplify) for i in range(ch_c19.NSHAPES)]
             + [ch_c19.st_update_merge(i, 1, 2, 3, 4, 9) for i in range(ch_c19.NSHAPES)]
+            + [ch_c19.st_simplify_deep(i, 1, 2, 3) for i in range(ch_c19.NTREES)]
         ) and all(_sf_grid(o) for o in (0, 1, 2)) and all(_sf_more_grid(k, o) for k in range(6) for o in range(3))
 
     def _sf_more_grid(k, o):
@@ -68,6 +70,7 @@ def run(check: Check) -> None:
         probes += [("lm_named_lookup_consistent", [{1: 2}, {1: 3, 4: 5}, {4: 6, 9: 9}, k, sh]) for k in (1, 4, 9, 0) for sh in range(4)]
         probes += [("lm_with_layers_multi", [{1: 2, 5: 5}, {1: 3, 4: 5}, {1: 9, 4: 6, 7: 7}, k, p, ip]) for k in (1, 4, 5, 7, 0) for p in (True, False) for ip in (True, False)]
         probes += [(f, [i, 1, 2, 3, 4]) for f in ("st_map", "st_simplify") for i in range(ch_c19.NSHAPES)] + [("st_update_merge", [i, 1, 2, 3, 4, 9]) for i in range(ch_c19.NSHAPES)]
+        probes += [("st_simplify_deep", [i, 1, 2, 3]) for i in range(ch_c19.NTREES)]
         probes = [(f, a, {}) for f, a in probes]
         for o in (0, 1, 2):
             probes += [("sf_ops", [a, i, t, b, j, u], {"__ORD__": o, "__LO__": -4, "__HI__": 3, "__NP__": 7}) for a in range(3) for b in range(3) for i in range(-4, 4) for j in range(-4, 4) for t in range(7) for u in range(0, 7, 2)]
